@@ -7,6 +7,8 @@ package strategy
 
 import (
 	"context"
+	"encoding/json"
+	"fmt"
 	"sync"
 	"time"
 
@@ -29,7 +31,7 @@ func compareCurrentPodWithNewPod(params *Parameters, pod *corev1.Pod, node *Node
 	if !compareSpecTemplateMD5Hash(params.Replicaset.Spec.TemplateGeneration, pod) {
 		return false
 	}
-	if !compareWithExtendedDaemonsetSettingOverwrite(pod, node) {
+	if !compareWithExtendedDaemonsetSettingOverwrite(pod, withoutNodeOverriddenContainers(params.EDSName, params.Replicaset, node)) {
 		return false
 	}
 	if !compareNodeResourcesOverwriteMD5Hash(params.EDSName, params.Replicaset, pod, node) {
@@ -37,6 +39,36 @@ func compareCurrentPodWithNewPod(params *Parameters, pod *corev1.Pod, node *Node
 	}
 
 	return true
+}
+
+// withoutNodeOverriddenContainers returns a NodeItem whose ExtendedDaemonsetSetting no longer lists the containers
+// for which the node carries a (well-formed) resources annotation: at pod creation the node annotation takes precedence
+// over the ExtendedDaemonsetSetting, so the setting must not be expected on these containers when comparing.
+func withoutNodeOverriddenContainers(edsName string, replicaset *datadoghqv1alpha1.ExtendedDaemonSetReplicaSet, node *NodeItem) *NodeItem {
+	if node == nil || node.Node == nil || node.ExtendedDaemonsetSetting == nil || replicaset == nil {
+		return node
+	}
+	var containers []datadoghqv1alpha1.ExtendedDaemonsetSettingContainerSpec
+	overridden := false
+	for _, container := range node.ExtendedDaemonsetSetting.Spec.Containers {
+		key := fmt.Sprintf(datadoghqv1alpha1.ExtendedDaemonSetRessourceNodeAnnotationKey, replicaset.Namespace, edsName, container.Name)
+		if val, found := node.Node.GetAnnotations()[key]; found {
+			var resources corev1.ResourceRequirements
+			if err := json.Unmarshal([]byte(val), &resources); err == nil {
+				overridden = true
+
+				continue
+			}
+		}
+		containers = append(containers, container)
+	}
+	if !overridden {
+		return node
+	}
+	settingCopy := node.ExtendedDaemonsetSetting.DeepCopy()
+	settingCopy.Spec.Containers = containers
+
+	return NewNodeItem(node.Node, settingCopy)
 }
 
 func compareNodeResourcesOverwriteMD5Hash(edsName string, replicaset *datadoghqv1alpha1.ExtendedDaemonSetReplicaSet, pod *corev1.Pod, node *NodeItem) bool {
